@@ -241,7 +241,7 @@ EXTRA = {
            'conversion outside the reference-plane stanzas are one formula per axis (R11.7). reb_mod2pi maps every finite angle into [0, 2 pi) (interval evaluation, R11.9); Python locals naming sub-expressions are inlined before the inline formulas of the two front ends are compared (R11.4). The massless-primary test of the constructor and of the read-back compare the same quantity (R11.10); the loop body of the Pal Kepler solver is a Newton step for the Jacobian of its own residuals (R11.11). The anomaly conversions of rebound/tools.py return nothing but the result of the C function of the same name (R11.12); methods of the wrapper classes keep no derived state on the Python object (R18.10, shared). Prototype and definition of a function do not name the same parameters in a different order (R11.13, on the names as written); helpers named after a None test compare with None (R11.14).',
     'C13': 'Also: the opening radius of both tree collision walks is a sum containing the search radius of particle 1 (radius plus travel for the line search), a bound on the '
            'partner\'s radius, the partner drift bound (line search) and at least sqrt(3)/2 cell widths, and no parameter of the walks is merely handed down the recursion (R13.7); '
-           'the relative position/velocity stanzas of the hard-sphere resolver are one formula per axis. The largest and second-largest radius kept by reb_simulation_add are the two largest of (new, largest, second) on every ordering (R13.8); every tree-in-use test names both tree searches (R13.9). Every criterion accumulated into the MERCURIUS critical distance of particle i depends on particle i (R13.10). Tree searches exclude only the searching particle itself, by identity of the two indices (R13.11); the unsorted removal that the re-indexing of pending collisions assumes moves exactly the last particle into the hole (R14.14, shared). Leaf tests of tree cells draw the line at pt >= 0 everywhere, so particle 0 is a partner like any other (R01.13, shared); \'already merged at this time\' is an identity test on times (R08.12, shared).',
+           'the relative position/velocity stanzas of the hard-sphere resolver are one formula per axis. The largest and second-largest radius kept by reb_simulation_add are the two largest of (new, largest, second) on every ordering (R13.8); every tree-in-use test names both tree searches (R13.9). Every criterion accumulated into the MERCURIUS critical distance of particle i depends on particle i (R13.10). Tree searches exclude only the searching particle itself, by identity of the two indices (R13.11); the unsorted removal that the re-indexing of pending collisions assumes moves exactly the last particle into the hole (R14.14, shared). Drift distances added to search radii are magnitudes, |dt_last_done| times a speed, so the tree line search works backwards in time (R13.12). Leaf tests of tree cells draw the line at pt >= 0 everywhere, so particle 0 is a partner like any other (R01.13, shared); \'already merged at this time\' is an identity test on times (R08.12, shared).',
     'C14': 'Also: qsort comparators are overflow-free three-way comparisons and the bisection orders the same unsigned key (R14.7); every function that releases a growable buffer '
            'resets its capacity counter - 25 buffer/counter pairs taken from the growth sites (R14.8). reb_simulation_particle_by_hash answers without rebuilding the lookup table only on the path that saw a particle carrying the requested hash (R14.3); Particles.__getitem__ indexes the ctypes pointer only inside 0..N-1 for all key classes (R14.11). Each entry written while the lookup table is rebuilt is covered by a per-iteration capacity test or by a capacity made >= N before the loop (R14.2); the bulk particle setter mirrors the bulk getter assignment by assignment (R14.12). Index and hash selectors are never tested by truthiness (R14.13); the unsorted removal moves exactly one particle (R14.14); a leaf\'s occupant is set only in a freshly allocated cell, so a flagged particle stays reachable until the tree update drops it (R15.13); the particle view keeps no cached array (R18.10, shared). Stores into a particle hash take an integer value (R14.15); every refusal of reb_simulation_add_local precedes the increment of r->N (R14.16).',
     'C15': 'Also: box set-up (boxsize, root counts) is one formula per axis; the loops of reb_boundary_check cover the real particles only (R15.8). Per-axis tests joined by ||/&& and products of three per-axis factors mention x, y and z once each (R15.9); descriptor rows of the box geometry designate the member they name (R05.2). The cell-moment update handles the leaf case of the visited cell and guards divisions by the cell mass (R15.10); ghost-box image loops of every gravity routine treat the axes alike (R02.2). Every tree update of reb_simulation_step is reached whenever tree_needs_update is raised (R15.11); the monopole data is refreshed on every call (R15.12); a leaf\'s occupant is never replaced (R15.13); \'tree in use\' predicates written as a conjunction of != tests name the same module set (R15.7). Comparisons of a coordinate with half the box size are strict everywhere, as in the boundary code (R15.14); leaf tests agree at every site (R01.13, shared).',
